@@ -9,7 +9,7 @@ META = {
             "S(T,N): every byte string for region-bearing types; U: one step of the constraint algebra from an "
             "arbitrary pre-state. Reference: RefDec on the pinned layout (outcome class, error attributes, events).",
     "bounds": {
-        "quick": "shapes of 14 seed-rotated command codes + core; region-bearing structure types lengths m..min(m+3,9); U with <= 3 constraints",
+        "quick": "every size field of the minimal shapes of 9 seed-rotated command codes + core (pairs of size fields on the core); 24 seed-rotated region-bearing structure types lengths m..min(m+3,9); 7 synthetic nested types lengths 0..8; U with <= 3 constraints",
         "thorough": "all command codes; pairs of nested size fields; lengths 0..min(m+4,14)",
     },
     "outside": "more than two symbolic size fields at once; regions nested deeper than the types allow",
